@@ -3471,7 +3471,7 @@ yin_parse_extension_instance(struct lysp_yin_ctx *ctx, const void *parent, enum 
         LY_CHECK_RET(yin_unres_exts_add(ctx, e->exts));
     } else if (ctx->xmlctx->value_len) {
         /* invalid text content */
-        LOGVAL_PARSER(ctx, LYVE_SYNTAX, "Extension instance \"%s\" with unexpected text content \"%.*s\".", ext_name,
+        LOGVAL_PARSER(ctx, LYVE_SYNTAX, "Extension instance \"%s\" with unexpected text content \"%.*s\".", e->name,
                 (int)ctx->xmlctx->value_len, ctx->xmlctx->value);
         return LY_EVALID;
     }
